@@ -338,6 +338,7 @@ func main() {
 	trans += res.Transitions
 	// element types and sizes: zero-size, one byte, larger than a page, pointers
 	r.Set("element_type_calls", allTypedSorted(r))
+	r.Set("panicking_less_cases", panickingLess(r))
 	// Large-size family: up to 300 values with duplicates in three arrival orders and two sort
 	// orders against a sorted-slice model (positions returned by Add/Index/Remove, Get, Contains)
 	famCalls := 0
